@@ -89,19 +89,20 @@ def compile_stages(text: str, prethread_rng=None):
     st["untraced"] = u
     prev = u
     import signal
-    signal.signal(signal.SIGALRM, _alarm)
+    # CPU time of this process, not wall-clock time: a machine that is merely busy must never turn a terminating pass into a violation
+    signal.signal(signal.SIGVTALRM, _alarm)
     for name, spec in (("traced", "accfg-trace-states"), ("dedup", "accfg-dedup"), ("overlap", "accfg-config-overlap")):
         m = prev.clone()
         try:
-            signal.alarm(PASS_TIMEOUT_S)
+            signal.setitimer(signal.ITIMER_VIRTUAL, PASS_TIMEOUT_S)
             repo.run_pipeline(m, spec)
-            signal.alarm(0)
+            signal.setitimer(signal.ITIMER_VIRTUAL, 0)
         except PassTimeout:
-            st[name] = RuntimeError(f"{spec} did not terminate within {PASS_TIMEOUT_S} s")
+            st[name] = RuntimeError(f"{spec} did not terminate within {PASS_TIMEOUT_S} s of CPU time")
             st[name + "_tb"] = ""
             break
         except Exception as e:
-            signal.alarm(0)
+            signal.setitimer(signal.ITIMER_VIRTUAL, 0)
             st[name] = e
             st[name + "_tb"] = traceback.format_exc(limit=6)
             break
